@@ -190,3 +190,15 @@ def siblings_rule(ctx):
               and a.get("Fasta", ("",))[0] == "fasta" and a.get("Fastq", ("",))[0] == "fastq",
               "both passes use fasta::Reader for Fasta and fastq::Reader for Fastq on the same reader term",
               "Sequences::new %s and seq_stats %s do not build the same reader per format" % (a, b), fn.fn["sp"])
+
+
+
+def reader_deps(ctx, prop):
+    """Record-oriented properties ("one row / line per input record, in order") rest on the reader: decoder choice,
+    suffix table, accessors, ordinal discipline and the statistics pass are re-checked under the property's ids."""
+    d = dep(ctx, prop, "C06")
+    decoder_rule(d)
+    suffix_rule(d)
+    accessor_rule(d)
+    c05.ordinal_rule(d, "C06.N")
+    c05.reader_ownership(d, "C06.N")
